@@ -21,6 +21,8 @@ ASSUMPTIONS = [
 
 UNLISTED = "zz-unlisted-value"
 FOREIGN_ATTR = "zzForeignAttr"
+# other names outside every rule's list: namespace-style, a declared name in another case, the empty name
+FOREIGN_NAMES = ["xlink:href", "xml:lang", "ID", "Scope", ""]
 ABSENT = None
 ORDER_LIMIT = {"quick": 4, "thorough": 6}
 
@@ -60,9 +62,11 @@ def run_assignment(rule_name, node, direct, attrs_spec, items, case):
     node.attributes = {}
     for k, v in items:
         node.add_attribute(k, v)
-    assignment = {k: v for k, v in items if k != FOREIGN_ATTR}
-    foreign = any(k == FOREIGN_ATTR for k, _ in items)
-    exp = expected_errors(attrs_spec, assignment, foreign)
+    assignment = {k: v for k, v in items if k in attrs_spec}
+    foreign_list = [k for k, _ in items if k not in attrs_spec]
+    exp = expected_errors(attrs_spec, assignment, False)
+    for k in foreign_list:
+        exp[("ATTRIBUTE_UNRECOGNIZED", k)] += 1
     probs = []
     ff = None
     try:
@@ -146,11 +150,14 @@ def work(item):
     n = 0
     nontrivial = 0
     limit = ORDER_LIMIT[tier]
+    foreign_names = [False, FOREIGN_ATTR] + ([n_ for n_ in FOREIGN_NAMES if n_ not in attrs_spec])
     for combo in itertools.product(*opts):
-        for foreign in (False, True):
+        for foreign in foreign_names:
             base = [(a, v) for a, v in zip(names, combo) if v is not ABSENT]
             if foreign:
-                base = base + [(FOREIGN_ATTR, "f")]
+                base = base + [(foreign, "f")]
+                if foreign != FOREIGN_ATTR and len(base) > 2:
+                    continue        # the extra foreign names are combined with small assignments only
             orders = [base]
             if 1 < len(base) <= limit:
                 orders = [list(p) for p in itertools.permutations(base)]
